@@ -29,33 +29,55 @@ Fixpoint vd_get (p : list str) (v : val) : option val :=
                end
   end.
 
-Fixpoint vd_set (p : list str) (x : val) (dd : list (str * val)) : list (str * val) :=
+(* a mapping value (dict, or a namespace stored inside a dict): its entries, the same kind of mapping with other
+   entries, an empty mapping of the same kind *)
+Definition entries (v : val) : option (list (str * val)) :=
+  match v with VDict dd | VNs dd => Some dd | _ => None end.
+Definition with_entries (v : val) (dd : list (str * val)) : val :=
+  match v with VNs _ => VNs dd | _ => VDict dd end.
+Definition fresh_like (v : val) : val :=
+  match v with VNs _ => VNs [] | _ => VDict [] end.
+
+(* set inside a mapping value: a mapping met on the way is kept, anything else (or nothing) is replaced by an empty
+   mapping of the kind of its parent *)
+Fixpoint vd_set (p : list str) (x : val) (cur : val) : val :=
   match p with
-  | [] => dd
-  | [k] => insert k x dd
+  | [] => cur
   | k :: p' =>
-      match lookup k dd with
-      | Some (VDict dd') => insert k (VDict (vd_set p' x dd')) dd
-      | Some (VNs dd') => insert k (VNs (vd_set p' x dd')) dd     (* a namespace stored inside the dict: still a mapping *)
-      | _ => insert k (VDict (vd_set p' x [])) dd
+      match entries cur with
+      | None => cur
+      | Some dd =>
+          match p' with
+          | [] => with_entries cur (insert k x dd)
+          | _ :: _ =>
+              let sub := match lookup k dd with
+                         | Some (VDict s) => VDict s
+                         | Some (VNs s) => VNs s
+                         | _ => fresh_like cur
+                         end in
+              with_entries cur (insert k (vd_set p' x sub) dd)
+          end
       end
   end.
 
-Fixpoint vd_del (p : list str) (dd : list (str * val)) : option (list (str * val)) :=
+Fixpoint vd_del (p : list str) (cur : val) : option val :=
   match p with
   | [] => None
-  | [k] => match lookup k dd with Some _ => Some (remove k dd) | None => None end
   | k :: p' =>
-      match lookup k dd with
-      | Some (VDict dd') => match vd_del p' dd' with
-                            | Some r => Some (insert k (VDict r) dd)
-                            | None => None
-                            end
-      | Some (VNs dd') => match vd_del p' dd' with
-                          | Some r => Some (insert k (VNs r) dd)
-                          | None => None
-                          end
-      | _ => None
+      match entries cur with
+      | None => None
+      | Some dd =>
+          match p' with
+          | [] => match lookup k dd with Some _ => Some (with_entries cur (remove k dd)) | None => None end
+          | _ :: _ =>
+              match lookup k dd with
+              | Some v' => match vd_del p' v' with
+                           | Some r => Some (with_entries cur (insert k r dd))
+                           | None => None
+                           end
+              | None => None
+              end
+          end
       end
   end.
 
@@ -94,7 +116,7 @@ Fixpoint spec_set (p : list str) (x : node) (d : sdict) : sdict :=
   | k :: p' =>
       match lookup k d with
       | Some (Branch d') => insert k (Branch (spec_set p' x d')) d
-      | Some (Leaf (VDict dd)) => insert k (Leaf (VDict (vd_set p' (val_of_node x) dd))) d
+      | Some (Leaf (VDict dd)) => insert k (Leaf (vd_set p' (val_of_node x) (VDict dd))) d
       | _ => insert k (Branch (spec_set p' x [])) d
       end
   end.
@@ -109,8 +131,8 @@ Fixpoint spec_del (p : list str) (d : sdict) : option sdict :=
                             | Some r => Some (insert k (Branch r) d)
                             | None => None
                             end
-      | Some (Leaf (VDict dd)) => match vd_del p' dd with
-                                  | Some r => Some (insert k (Leaf (VDict r)) d)
+      | Some (Leaf (VDict dd)) => match vd_del p' (VDict dd) with
+                                  | Some r => Some (insert k (Leaf r) d)
                                   | None => None
                                   end
       | _ => None
